@@ -79,6 +79,15 @@ CLAIMED.update({
    note="hook commit b95836f (add-only, cfg fastcgi_server_verif)", ref="6 C14, 8"),
 })
 
+CLAIMED.update({
+ "C19": dict(technique="TLA+ transcription of the name comparison / hashing rules (VarName.tla); laws decided by TLC on a small alphabet with LANES=2; vectors for LANES=16 replayed on VarName / OwnedVarName through every constructor with a recording hasher",
+   text="Equality, order, hash feeding and the header-name mapping are operators over byte strings; TLC decides the algebraic laws (equivalence, total order, equal => identical hash writes, prefix-freeness, ASCII case only) exhaustively on short strings and produces expected results for interned and boundary-length names in all case patterns, which are replayed on the real types (all constructors, HashMap lookup, interning, From<&HeaderName>).",
+   note="transcription + vector binding: the weakest use of the technique in this framework; hash write layout is compared for DRIFT only", ref="6 C19"),
+ "C20": dict(technique="TLA+ transcription of the response grammar (Response.tla); cases enumerated by TLC over codes x header lists x every destination capacity; vectors replayed on the writers",
+   text="The grammar is three operators; TLC enumerates status codes (thorough: all 100..999) with reason phrases supplied from the http crate, small header lists with empty / non-UTF-8 names and values, and every destination capacity from 0 to one more than needed, and emits expected bytes, count and failure, which the harness replays on write_headers, simple_redirect and http_headers.",
+   note="pure function; the universally quantified claim is reached at the listed boundary sets", ref="6 C20"),
+})
+
 NOT_YET = {}
 
 def main():
